@@ -15,7 +15,7 @@ class C02(InterpProp):
 
     def knobs(self, rnd, tier):
         return gen.Knobs(nested_targets=0.55, p_orth=0.45, p_history=0.45, p_guard=0.3,
-                         max_states=rnd.choice([10, 16, 22]), trans_per_owner=2.0)
+                         max_states=rnd.choice([10, 16, 22]), trans_per_owner=2.0, history_focus=0.5)
 
     def check_exec(self, info, res):
         r, gh, sc = info['r'], info['ghost'], info['sc']
